@@ -259,6 +259,13 @@ def stepH (s : S) (ws : List String) (h : Hist Float) : S × String :=
       match s.e.expect with
       | none => (s, s!"ok sets=1 rows1={r1} rows2=0 cum={cumS}")
       | some ex => (s, s!"ok sets=2 rows1={r1} rows2={(survExpected ex).length} cum={cumS}")
+  | "hplotqq" :: _ =>
+    match h.plotQQ s.e with
+    | .fault => (s, "fault")
+    | .val rows =>
+      let cum := match rows.getLast? with | some r => r.2 | none => 0
+      let cumS := if !s.e.isTailfit && h.nc > 0 && h.nc ≤ 10000 && rows.length > 0 then toString cum else "-"
+      (s, s!"ok sets=2 rows1={rows.length} rows2=2 cum={cumS}")
   | "hexpfit" :: _ => (s, fitOut (expFitCompleteBinned h))
   | "hgamfit" :: _ => (s, fitOut (gamFitCompleteBinned h))
   | "hweifit" :: _ => (s, fitOut (weiFitCompleteBinned h s.e.isTailfit))
